@@ -61,7 +61,7 @@ let pct_decode (s : string) : string =
     let b = Buffer.create (String.length s) in
     let i = ref 0 in
     while !i < String.length s do
-      if s.[!i] = '%' && !i + 2 < String.length s + 0 && !i + 2 <= String.length s - 1 then begin
+      if s.[!i] = '%' && !i + 2 < String.length s then begin
         Buffer.add_char b (Char.chr (int_of_string ("0x" ^ String.sub s (!i + 1) 2))); i := !i + 3
       end else begin Buffer.add_char b s.[!i]; incr i end
     done;
